@@ -128,6 +128,9 @@ var hashFns = []hashFn{
 	// functions whose state has the same Go type as an earlier one (per-type caches must not leak between them)
 	{"sha224", -1, sha256.New224},
 	{"maphash(second seed)", -1, func() hash.Hash { h := new(maphash.Hash); h.SetSeed(mapSeed2); return h }},
+	// a constructor whose fresh state is NOT its Reset state (domain separation by a written prefix): the Merkle
+	// function calls the constructor for every node, an implementation may not substitute Reset for it
+	{"salted-sha256", -1, func() hash.Hash { h := sha256.New(); h.Write([]byte("verif-salt")); return h }},
 }
 
 var mapSeed2 = maphash.MakeSeed()
@@ -524,6 +527,18 @@ func famHash(dir string, seed int64, tier string) {
 				s1b, _ := sinkHash(ts, f)
 				if !bytes.Equal(s1, s1b) {
 					repH.violate("C09", "hash-not-deterministic", "two runs gave different digests", fdesc)
+				}
+				// the same Sink value started again (a sink is a value: starting it twice hashes two streams)
+				if n%4 == 0 {
+					var sumR []byte
+					sinkR := sb.Hash(f.new, &sumR, nil)
+					eR1 := guard(func() error { return sb.Copy(tokensFrom(ts), sinkR) })
+					first := append([]byte{}, sumR...)
+					eR2 := guard(func() error { return sb.Copy(tokensFrom(ts), sinkR) })
+					repH.Evaluations += 2
+					if eR1 != nil || eR2 != nil || !bytes.Equal(first, want) || !bytes.Equal(sumR, want) {
+						repH.violate("C09", "sink-reuse-differs", fmt.Sprintf("the Hash sink value started twice on the same stream gives %x (%v) then %x (%v), reference %x", first, eR1, sumR, eR2, want), fdesc)
+					}
 				}
 			}
 			if f.id >= 0 {
